@@ -248,6 +248,12 @@ impl Space {
             }
             let mut nets = trunk_nets();
             nets.extend(fork_nets());
+            // connectors of length zero: a route made of them alone has no length to weigh its edges by (the distance-weighted
+            // cosine has nothing to divide by); the query is answerable all the same
+            nets.push(Net { n: 3, edges: vec![(0, 2, 0.0), (0, 1, 1.0), (1, 2, 1.0)], xy: None });
+            nets.push(Net { n: 4, edges: vec![(0, 1, 0.0), (1, 3, 0.0), (0, 2, 1.0), (2, 3, 1.0)], xy: None });
+            nets.push(Net { n: 4, edges: vec![(0, 1, 0.0), (1, 3, 1.0), (0, 2, 1.0), (2, 3, 1.5)], xy: None });
+            nets.push(Net { n: 4, edges: vec![(0, 1, 1.0), (1, 3, 1.0), (0, 2, 0.0), (2, 3, 0.0)], xy: None });
             (nets, a)
         };
         Space { nets: nets(&specs(yens, tier)), algos: ksp_algos(yens, tier), extra_nets, extra_algos, trunk_nets, trunk_algos }
